@@ -5,7 +5,12 @@ Tie C (correspondence): harness/h_random.cpp calls the real generators in-proces
 with the model; the Integer range constructions are replayed by the model on the raw GMP draws the code consumed (the two
 GMP entry points are interposed by the harness, which also substitutes the extreme values the GMP contract allows);
 RecInt::rand is replayed on the raw mt19937_64 words; every output goes through the range checkers of
-Spec/RandomSpec.lean; every generator is constructed twice from the same seed and the two sequences are compared.
+Spec/RandomSpec.lean.  Every draw line draws TWICE from the same seed: once into destinations pre-filled with junk (a large
+multi-limb Integer, a non-canonical ring element, a longer polynomial of ones, an all-ones ruint) and once into other
+destinations, the second time through an iterator / generator that is replaced half-way by a copy of itself (copy
+constructor, copy assignment); the specification rejects any difference between the two sequences (destination
+independence, reproducibility from the seed, copy semantics), and the model (Model/RandomDest.lean, every destination's
+previous content an explicit argument) is run on the pre-filled destinations.
 """
 import json
 import re
@@ -24,7 +29,10 @@ def run(prop, tier, seed, replay=None):
         "(the multiplier is a primitive root modulo the prime 2^31-1, Lemmas/RandomOrbit.lean); the correspondence runs every loop under a watchdog",
         "ring types other than Modular<integral>, GFqDom, Modular<ruint<K>> and Montgomery<ruint<K>> (i.e. floating, balanced, Montgomery<int32_t>, Modular<Integer>, Modular<rint<K>>) are checked implementation-vs-specification only "
         "(their init is the subject of C04); a zero seed (clock-seeded generator) is outside the property",
-        "that the generators have no other input than the seed is checked by constructing every generator twice (correspondence), not proved",
+        "that the CODE has no other input than the seed, the construction parameters and the calls is checked by drawing every sequence twice "
+        "(pre-filled vs other destinations, original vs copied iterator); for the MODEL it is a theorem (…_dest_indep, …_run_dest_indep, …_append, rii_run_indep)",
+        "a zero seed makes GivRandom read the clock (the only documented non-determinism): modelled as an arbitrary stream of int64_t readings, "
+        "proved to give a valid state for every reading; not exercised by the correspondence",
     ]
     L = flow.lean_stage(V, ["GivaroModel.Props.C20"], "GivaroModel/Props/C20.lean")
     common.shadow_inc()      # bring the shadow include tree up to date once, before the per-configuration builds run concurrently
@@ -47,7 +55,7 @@ def run(prop, tier, seed, replay=None):
                        rule="structured: GivRandom seeds {1,2,M-2,M-1,M,M+1,2M,2^31,2^32±1,2^33,overflow threshold ±1,2^63,2^64-1,multiples of M, VERIF_SEED-derived} "
                             "(M = 2^31-1) x 24 draws from two generators + runs of 10^4..3*10^6 draws; every Integer range construction at bounds "
                             "{1,2,..,2^k-1,2^k,2^k+1 for k in 31..3000, limb-structured multi-limb} and bit sizes {1,2,31..33,63..65,127..129,..,1000,random} "
-                            "x raw-draw patterns (every sequence over {real, minimum, maximum} of length <= 2 in quick, <= 4 in thorough); "
+                            "x raw-draw patterns (every sequence over {real, minimum, maximum} of length <= 2 in quick, <= 3 plus selected longer ones in thorough), every destination pre-filled from {0,±1,2^64,-(2^130+12345),2^300+2^64+3,-2^63,2^1000-1}; "
                             "every ring type x modulus grid (min/maxCardinality() as reported by the running code and the values next to them) x 8 draw functions x sizes "
                             "{0,1,2,3,p/2,p-1,p,p+1,max}; polynomial degrees 0..100 (1000 thorough); RecInt K = 6..10. distinct = distinct input lines; "
                             "non-trivial = not all arguments in {0,1}",
